@@ -265,6 +265,7 @@ struct Runner : IRunner {
     static constexpr bool is_std = std::is_base_of_v<policy::std_rtti, P>;
     static constexpr bool is_deferred = std::is_base_of_v<policy::deferred_static_rtti, P>;
     static constexpr bool is_proj = std::is_base_of_v<proj_rtti, P>;
+    static constexpr bool is_wide = std::is_base_of_v<wide_rtti, P>;
 
     const char* name_;
     std::vector<Slot> pool;
@@ -342,6 +343,8 @@ struct Runner : IRunner {
     static type_id real_id(int c, int alias) {
         if constexpr (is_std) {
             return std_id_(c, std::make_integer_sequence<int, kStdPool>());
+        } else if constexpr (is_wide) {
+            return (type_id(c) << 32) | 16;
         } else {
             return 16 * type_id(c) + alias;
         }
@@ -361,6 +364,11 @@ struct Runner : IRunner {
                 if (real_id(c, 0) == id) {
                     return c;
                 }
+            }
+            return -1;
+        } else if constexpr (is_wide) {
+            if ((id & 0xffffffffu) == 16 && (id >> 32) >= 1 && (id >> 32) < 64) {
+                return int(id >> 32);
             }
             return -1;
         } else {
